@@ -11,12 +11,6 @@ Open Scope N_scope.
 Definition entries_of (xs : list minput) : list entry :=
   flat_map (fun x => match x with MEntry e => [e] | MHint => [] end) xs.
 
-Lemma last_kt_app : forall pre l, l <> [] -> last_kt (pre ++ l) = last_kt l.
-Proof.
-  intros pre l H. destruct (snoc_cases l) as [->|(l' & e & ->)]; [congruence|].
-  now rewrite app_assoc, !last_kt_snoc.
-Qed.
-
 Section Multi.
   Variable enc_size : bentry -> N.
   Hypothesis enc_pos : forall e, 0 < enc_size e.
@@ -122,7 +116,7 @@ Section Multi.
         destruct (sb_add enc_size meta_enc sip (snd g) e) as [b1|] eqn:Ea; cbn [bind] in H; [|discriminate].
         cbn [entries_of flat_map app] in Hk. inversion Hk as [|? ? Hk1 Hk2]; subst.
         destruct (get_builder_inv m done cur_all g I Eg) as (done1 & cur1 & C1 & O1 & D1 & L1 & (recs & cur & I1 & A1) & S1 & K1).
-        destruct (sb_add_inv enc_size enc_pos meta_enc sip _ _ _ _ _ _ I1 Hk1 Ea) as (recs2 & cur2 & I2 & A2 & _ & Hlt).
+        destruct (sb_add_inv enc_size enc_pos meta_enc sip _ _ _ _ _ _ I1 Hk1 Ea) as (recs2 & cur2 & I2 & A2 & _ & Hlt & _).
         assert (I' : minv (mb_with_cur (fst g) b1) done1 (cur1 ++ [e])).
         { constructor; cbn [mb_with_cur mb_done mb_last_key mb_last_ts mb_cur]; auto.
           - exists recs2, cur2. split; [exact I2|]. now rewrite A2, A1.
